@@ -24,7 +24,7 @@ func init() {
 			"(R4) first-wins: under SET_IF_NOT_EXISTS the only writer is setNewKV under a failed lookup; concatenation under APPEND puts the existing value first (both in Merge and in the sequential append); " +
 			"(R5) every baseStore method that can introduce a DELETE_PREFIX operation is overridden by PartialKV so that the prefix is also recorded in DeletedPrefixes; " +
 			"(R6) Save writes exactly the StoreData fields Load restores; " +
-			"(R7) the merge combiner and the sequential combiner of each MIN/MAX/ADD (policy, value type) classify as the same selection (min, max or sum) using only the orderings of their two operands. (R8) in every loop of Merge over the partial's keys an iteration ends with that key written into the full store or with an error; a key is left untouched only when a lookup found it already present (first-wins), so squashing never loses a key that sequential execution holds.",
+			"(R7) the merge combiner and the sequential combiner of each MIN/MAX/ADD (policy, value type) classify as the same selection (min, max or sum) using only the orderings of their two operands. (R8) in every loop of Merge over the partial's keys an iteration ends with that key written into the full store or with an error; a key is left untouched only when a lookup found it already present (first-wins), so squashing never loses a key that sequential execution holds. Also (R1) every numeric parse of a store value asks for 64 bits.",
 		NotCovered:  "Arithmetic of the merged values (sums, decimal truncation, float formatting), arbitrary segment cuts and interleavings: numeric equality of merged and sequential values is not decided. SET_SUM prefix algebra is only checked for switch coverage.",
 		Assumptions: []string{"enumerator names of the generated Operation_Type / UpdatePolicy enums are the schema", "big.Int.Cmp / decimal.Cmp are three-way compares"},
 	})
@@ -141,6 +141,7 @@ func runC02(p *core.Prog, r *core.Report) {
 
 	// ------------------------------------------------------------------ R1
 	r.Guard("C02.R1", "merge-float-codec", "float64 merge helpers are total", func() { checkMergeFloatCodecTotal(p, r, "C02.R1") })
+	r.GuardExact("C02.R1", "parse-width", "64-bit parses everywhere", func() { checkParseWidth(p, r, "C02.R1") })
 	r.Guard("C02.R1", "bigdecimal-truncation", "merge and host calls normalise alike", func() { checkDecimalTruncationAgreement(p, r, "C02.R1") })
 	r.Guard("C02.R5", "PartialKV.Roll", "nothing of the previous segment survives a roll", func() { checkRollResetsSegmentState(p, r, "C02.R5") })
 	r.Guard("C02.R1", "Flush", "operation table", func() {
